@@ -12,16 +12,18 @@ SPEC = dict(
                "(blank and padded names) and alias spellings; a quarter of the databases grow before they are searched (a main file, untagged in half "
                "of the cases, plus tagged entries added by the notebook merge, a wrapper refresh or an append). The tool names the program recognises are "
                "found by asking it about every word of its own text (about 90); entries for other platforms whose command starts with such a name with letters "
-               "glued on (gits, dockerx, create-react-apps) are planted in the databases and swept systematically: they are not that tool.",
+               "glued on (gits, dockerx, create-react-apps) are planted in the databases and swept systematically: they are not that tool. A quarter of the databases "
+               "are loaded from hand-style YAML files with anchors and aliases (what an entry declares is what the file says, by position); one growth step hands "
+               "the same entries over again with only platforms and pipeline flags changed, after requests were cached.",
     level_note="No completeness clause is asserted (C03 covers completeness under all-platforms). Host platform = runtime.GOOS of the sandbox (linux).",
     engines=[dict(name="filters", shards=T(16, 16), timeout=T(900, 3600)),
              dict(name="filters-cli", shards=T(16, 16), timeout=T(900, 3600), needs_wtf=True)],
     rule="case = (database with foreign-platform and non-pipeline entries, query, filter options); non-trivial = the unfiltered answer contains at least "
          "one entry that is definitely ineligible under the case's options (a leak opportunity); distinct by (db, query, options); CLI cases: non-empty JSON result blocks.",
     floors=T({"opportunity-lexical": 300, "opportunity-nlp": 300, "opportunity-fuzzy": 100, "cached-hit": 500, "pipeline-legacy": 50, "cli-nonempty": 40,
-              "distinct_nontrivial": 1500, "grown-notebook-merge": 10, "grown-refresh": 10, "grown-append": 10, "tool-name-sweep": 1000, "entries-named-like-a-tool-with-letters-glued-on": 150},
+              "distinct_nontrivial": 1500, "grown-notebook-merge": 10, "grown-refresh": 10, "grown-append": 10, "tool-name-sweep": 1000, "entries-named-like-a-tool-with-letters-glued-on": 150, "databases-from-files-with-aliases": 40, "requests-repeated-after-a-retag": 50},
              {"opportunity-lexical": 3000, "opportunity-nlp": 3000, "opportunity-fuzzy": 1000, "cached-hit": 5000, "pipeline-legacy": 500, "cli-nonempty": 400,
-              "distinct_nontrivial": 15000, "grown-notebook-merge": 500, "grown-refresh": 500, "grown-append": 500, "tool-name-sweep": 1000, "entries-named-like-a-tool-with-letters-glued-on": 7000}),
+              "distinct_nontrivial": 15000, "grown-notebook-merge": 500, "grown-refresh": 500, "grown-append": 500, "tool-name-sweep": 1000, "entries-named-like-a-tool-with-letters-glued-on": 7000, "databases-from-files-with-aliases": 2000, "requests-repeated-after-a-retag": 2500}),
     assumptions=[
         "alias families are generous (windows*: cmd, powershell; macos*: darwin, osx; linux*: unix, bash, zsh) so an alias the code learns later is not flagged",
         "the CLI's last-resort recovery search is not among the paths the statement lists and is not deciding here (C01 bounds it)",
